@@ -681,6 +681,63 @@ func noLeadingZero(buf []byte, p int) bool {
 		implies(p >= 3 && buf[0] == '-' && buf[1] == '0', !isDigitByte(buf[2]))
 }
 
+func specNumberRune(c byte) uint8 {
+	if isDigitByte(c) {
+		return isPartOfNumberFlag | isDigitFlag
+	}
+	if c == '.' {
+		return isPartOfNumberFlag | isFloatOnlyFlag | isMustHaveDigitNext
+	}
+	if c == '+' {
+		return isPartOfNumberFlag
+	}
+	if c == '-' {
+		return isPartOfNumberFlag | isMinusFlag | isMustHaveDigitNext
+	}
+	if c == 'e' || c == 'E' {
+		return isPartOfNumberFlag | isFloatOnlyFlag
+	}
+	if isEOVByte(c) {
+		return isEOVFlag
+	}
+	return 0
+}
+
+//@ tablefact isNumberRune [C01,C03] classes: isNumberRune[c] == specNumberRune(byte(c))
+
+func specTagType(t Tag) Type {
+	if t == TagString {
+		return TypeString
+	}
+	if t == TagInteger {
+		return TypeInt
+	}
+	if t == TagUint {
+		return TypeUint
+	}
+	if t == TagFloat {
+		return TypeFloat
+	}
+	if t == TagNull {
+		return TypeNull
+	}
+	if t == TagBoolTrue || t == TagBoolFalse {
+		return TypeBool
+	}
+	if t == TagObjectStart {
+		return TypeObject
+	}
+	if t == TagArrayStart {
+		return TypeArray
+	}
+	if t == TagRoot {
+		return TypeRoot
+	}
+	return TypeNone
+}
+
+//@ tablefact TagToType [C02,C12,C14] types: TagToType[c] == specTagType(Tag(c))
+
 //@ func parseNumber
 //@   props C01 C03
 //@   summary
@@ -708,19 +765,25 @@ func isFollowByte(c byte) bool {
 	return c == ' ' || c == '\t' || c == '\n' || c == '\r' || c == ',' || c == ':' || c == '[' || c == ']' || c == '{' || c == '}'
 }
 
+// the follow-set table, entry by entry
+//@ tablefact structuralOrWhitespaceNegated [C01] follow: iff(structuralOrWhitespaceNegated[c] == 0, isFollowByte(byte(c))) && (structuralOrWhitespaceNegated[c] == 0 || structuralOrWhitespaceNegated[c] == 1)
+
 //@ func isValidTrueAtom
 //@   props C01
-//@   ensures exact: iff(result, len(buf) >= 5 && buf[0] == 't' && buf[1] == 'r' && buf[2] == 'u' && buf[3] == 'e' && isFollowByte(buf[4]))
+//@   ensures sound: implies(result, len(buf) >= 5 && buf[0] == 't' && buf[1] == 'r' && buf[2] == 'u' && buf[3] == 'e' && isFollowByte(buf[4]))
+//@   ensures complete: implies(len(buf) >= 5 && buf[0] == 't' && buf[1] == 'r' && buf[2] == 'u' && buf[3] == 'e' && isFollowByte(buf[4]), result)
 //@   safe [C05]
 
 //@ func isValidNullAtom
 //@   props C01
-//@   ensures exact: iff(result, len(buf) >= 5 && buf[0] == 'n' && buf[1] == 'u' && buf[2] == 'l' && buf[3] == 'l' && isFollowByte(buf[4]))
+//@   ensures sound: implies(result, len(buf) >= 5 && buf[0] == 'n' && buf[1] == 'u' && buf[2] == 'l' && buf[3] == 'l' && isFollowByte(buf[4]))
+//@   ensures complete: implies(len(buf) >= 5 && buf[0] == 'n' && buf[1] == 'u' && buf[2] == 'l' && buf[3] == 'l' && isFollowByte(buf[4]), result)
 //@   safe [C05]
 
 //@ func isValidFalseAtom
 //@   props C01
-//@   ensures exact: iff(result, len(buf) >= 6 && buf[0] == 'f' && buf[1] == 'a' && buf[2] == 'l' && buf[3] == 's' && buf[4] == 'e' && isFollowByte(buf[5]))
+//@   ensures sound: implies(result, len(buf) >= 6 && buf[0] == 'f' && buf[1] == 'a' && buf[2] == 'l' && buf[3] == 's' && buf[4] == 'e' && isFollowByte(buf[5]))
+//@   ensures complete: implies(len(buf) >= 6 && buf[0] == 'f' && buf[1] == 'a' && buf[2] == 'l' && buf[3] == 's' && buf[4] == 'e' && isFollowByte(buf[5]), result)
 //@   safe [C05]
 
 // numberWords(buf,p,id,val): the two tape words parseNumber's contract allows for the token buf[:p]
